@@ -189,5 +189,7 @@ theorem refinesU3 (k0 k1 k2 : Nat) :
   indexes := mrEnum_eq _
   keys := rfl
   len := by simp [kindU3, kindSpec, prodDims]
+  resumeIdx := mrResume_eq _
+  resumeKeys := rfl
 
 end SLV.MArr
